@@ -17,6 +17,42 @@ sys.path.insert(0, os.path.dirname(os.path.abspath(__file__)))
 import lib  # noqa: E402
 
 
+def watchdog(seconds):
+    """a hang (a looping implementation, a dead worker pool) must not look like a verdict: exit 2 after the limit"""
+    import threading
+
+    def fire():
+        sys.stderr.write("INFRA: no verdict after %d s (watchdog)\n" % seconds)
+        sys.stderr.flush()
+        os._exit(2)
+    t = threading.Timer(seconds, fire)
+    t.daemon = True
+    t.start()
+
+
+def guarded_phase(ctx, fn, phase):
+    """An exception escaping a property module must not discard what was already found.  If it was raised by the
+    implementation under test (innermost frames inside the curtsies package) it is itself a violation candidate:
+    the real code raised where the harness expected it not to.  Otherwise it is a harness problem: infrastructure
+    trouble unless unlisted violations are already recorded (then they decide)."""
+    try:
+        fn(ctx)
+    except lib.InfraError:
+        raise
+    except Exception as e:  # noqa: BLE001
+        tb = traceback.extract_tb(e.__traceback__)
+        import curtsies
+        pkg = os.path.dirname(os.path.abspath(curtsies.__file__))
+        in_impl = bool(tb) and os.path.abspath(tb[-1].filename).startswith(pkg)
+        text = "".join(traceback.format_exception(type(e), e, e.__traceback__))[-3000:]
+        ctx.note("%s() aborted by %s" % (phase, type(e).__name__))
+        if in_impl:
+            ctx.violation("the implementation raised %s: %s where the check expected it to complete (%s phase)"
+                          % (type(e).__name__, str(e)[:200], phase), dict(traceback=text), None)
+        else:
+            ctx.harness_crash = text
+
+
 def main():
     ap = argparse.ArgumentParser()
     ap.add_argument("prop")
@@ -30,25 +66,34 @@ def main():
     mod = importlib.import_module("props." + prop.lower())
 
     if args.replay:
-        case = json.loads(open(args.replay).read())
-        print(json.dumps(mod.replay(case), indent=1, default=repr))
-        return 0
+        payload = json.loads(open(args.replay).read())
+        if "case" not in payload:
+            print(json.dumps(dict(replay="this replay names proof obligations / correspondence lines that no longer check; "
+                                         "there is no failing input to re-run", payload=payload), indent=1, default=repr))
+            return 0
+        res = mod.replay(payload)
+        print(json.dumps(res, indent=1, default=repr))
+        return 1 if (isinstance(res, dict) and res.get("oracle")) else 0
 
     ctx = lib.Ctx(prop, args.tier, seed)
     problems = []          # proof-side problems (strings)
     build_info = {}
     theorems, discharged = [], []
     t_build = 0.0
+    watchdog(7200 if args.tier == "thorough" else 1500)
     if not args.no_build:
+      with lib.BuildLock():      # regenerate + build + audit + private driver copy: one critical section
         lib.regenerate()
         ok, failed, log, t_build = lib.lake_build()
+        if not ok and (lib.infra_failure(log) or not failed):
+            raise lib.InfraError("lake build failed for a reason that is not an elaboration error:\n" + log[-3000:])
         deps = set()
         for m in mod.MODULES:
             deps |= lib.module_deps(m)
-        relevant_failed = [m for m in failed if m in deps or m.startswith("Main")]
+        # a failure in anything the DRIVER is built from would leave a stale binary on the model side of every tie
+        driver_side = ("Main", "driver", "Curtsies.Driver", "Curtsies.Wire", "Curtsies.Model", "Curtsies.Generated", "Curtsies.Spec")
+        relevant_failed = [m for m in failed if m in deps or m.startswith(driver_side)]
         build_info = dict(build_ok=ok, failed_modules=failed, relevant_failed=relevant_failed, build_s=round(t_build, 1))
-        if not ok and not failed:
-            raise lib.InfraError("lake build failed without naming a module:\n" + log[-3000:])
         for m in relevant_failed:
             problems.append("lake build: module %s no longer checks" % m)
         if relevant_failed:
@@ -57,6 +102,12 @@ def main():
         for b in bad:
             problems.append("forbidden token in Lean sources: " + b)
         theorems = lib.property_theorems(prop, mod.MODULES) + list(getattr(mod, "EXTRA_THEOREMS", []))
+        pinned = lib.pinned_theorems(prop)
+        if pinned is not None:
+            for t in pinned:
+                if t not in theorems:
+                    problems.append("pinned theorem %s is missing from the property modules (renamed, deleted, commented out or moved?)" % t)
+                    theorems.append(t)
         if args.tier == "thorough" and not relevant_failed:
             rc, out = lib.sh(["lake", "env", "leanchecker"] + list(mod.MODULES), cwd=lib.LEAN, timeout=3000)
             build_info["leanchecker_rc"] = rc
@@ -64,6 +115,7 @@ def main():
                 problems.append("leanchecker rejected the property modules: " + out[-500:])
         discharged, aud_problems = lib.audit(prop, mod.MODULES + list(getattr(mod, "EXTRA_MODULES", [])), theorems)
         problems += aud_problems
+        lib.private_driver()
 
     # source drift: a changed function body deepens this run's exploration (never a verdict by itself)
     try:
@@ -77,7 +129,7 @@ def main():
         ctx.note("source drift in %s: correspondence and oracle run at thorough bounds" % ", ".join(ctx.drift[:6]))
 
     # correspondence + oracle at this tier's bounds
-    mod.check(ctx)
+    guarded_phase(ctx, mod.check, "check")
 
     known = lib.known_findings(prop)
     open_ids = {e["id"] for e in known if e.get("status") == "open"}
@@ -90,7 +142,8 @@ def main():
         # a proof obligation or the correspondence broke: search both sides for a failing input
         ctx.escalated = True
         ctx.note("escalated: " + "; ".join(problems + ["correspondence %s disagrees" % d[0] for d in ctx.disagreements[:3]]))
-        mod.search(ctx)
+        ctx.in_search = True
+        guarded_phase(ctx, mod.search, "search")
 
     # A case the oracle attributed to a known finding, on which model and implementation ALSO disagree, is not
     # explained by that finding (the model reproduces the recorded defect): report it as a failing input.
@@ -100,6 +153,9 @@ def main():
             if v["footprint"] in open_ids and lib.chash(v["case"]) in bad_cases:
                 v["what"] = "(attributed to %s by its footprint, but model and implementation disagree on this case) %s" % (v["footprint"], v["what"])
                 v["footprint"] = None
+
+    if getattr(ctx, "harness_crash", None) and not unlisted():
+        raise lib.InfraError("the property module crashed (not inside the implementation) and nothing was found before:\n" + ctx.harness_crash)
 
     rc = 0
     out_lines = []
@@ -134,6 +190,13 @@ def main():
         path = lib.write_replay(prop, "no-failing-input-found", payload)
         out_lines.append("VIOLATION property=%s replay=%s no-failing-input-found" % (prop, path))
 
+    import leaninfo
+    li = leaninfo.info(prop, mod.MODULES)
+    statements = dict(full_statements_proved=li["proved"], full_statements_refuted_by_a_witness=li["refuted"],
+                      full_statements_not_proved=li["open"], theorems_with_an_extra_named_hypothesis=li["partial"],
+                      note="obligations/discharged count every theorem named %s_* (property theorems, table lemmas, partial forms, "
+                           "witnesses that refute a full statement); a property whose full statement is refuted or open is decided only "
+                           "under the named hypotheses" % prop)
     wall = time.time() - ctx.t0
     ev = {
         "property_id": prop, "tier": args.tier, "seed": seed, "level": "proof",
@@ -145,7 +208,11 @@ def main():
             "theorems": theorems, "proof_problems": problems, "build": build_info,
             "evaluations": ctx.evaluations, "distinct_nontrivial": len(ctx.nontrivial),
             "rule": getattr(mod, "RULE", ""), "samples": lib.jsonable(ctx.samples[:6]) or ["(no cases)"],
-            "traces_validated_against_impl": sum(t["compared"] for t in ctx.ties.values()),
+            "traces_validated_against_impl": sum(t["compared"] for k, t in ctx.ties.items() if t.get("involves_impl", True)
+                                                 and not any(w in k.lower() for w in ("mirror", "pyte", "spec", "termref", "cpython"))),
+            "cases_compared_spec_vs_mirror_or_second_opinion": sum(t["compared"] for k, t in ctx.ties.items() if not t.get("involves_impl", True)
+                                                                   or any(w in k.lower() for w in ("mirror", "pyte", "spec", "termref", "cpython"))),
+            "statements": statements,
             "correspondence": ctx.ties, "distribution": dict(ctx.dist.most_common(40)),
             "exhaustive_enumerations": ctx.exhaustive, "escalated_search": ctx.escalated,
             "source_drift": getattr(ctx, "drift", []),
@@ -156,7 +223,7 @@ def main():
         "wall_s": round(wall, 2),
         "violations": len(ul) if ul else (1 if rc else 0),
     }
-    evdir = lib.EVIDENCE if not args.no_build else lib.Path("/tmp/verif-nobuild-evidence")   # dev runs never touch evidence/
+    evdir = lib.EVIDENCE if (not args.no_build or os.environ.get("VERIF_EVIDENCE_DIR")) else lib.Path("/tmp/verif-nobuild-evidence")   # dev runs never touch evidence/
     evdir.mkdir(exist_ok=True)
     (evdir / (prop + ".json")).write_text(json.dumps(ev, indent=1, default=repr))
     for l in out_lines:
